@@ -258,7 +258,7 @@ var Styles = func() []string {
 	// the styles with a 70 KB line are expensive to simulate: one draw in twelve
 	var out []string
 	for i := 0; i < 4; i++ {
-		out = append(out, "canonical", "crlf", "nofinalnl", "spaces", "blanklines", "trailingws", "bom", "semis")
+		out = append(out, "canonical", "crlf", "nofinalnl", "spaces", "blanklines", "trailingws", "bom", "semis", "trailingblank")
 	}
 	return append(out, "hugeheader", "hugeline", "crlf-hugeline")
 }()
@@ -281,6 +281,9 @@ func ApplyStyle(r *world.PRNG, src, style string) []byte {
 		src = strings.ReplaceAll(src, "{\n", "{   \t\n")
 	case "bom":
 		src = "\xef\xbb\xbf" + src
+	case "trailingblank":
+		// empty lines after the last line of code
+		src = strings.TrimRight(src, "\n") + "\n\n\n"
 	case "hugeheader":
 		// one very long comment line before the package clause
 		src = hugeComment + "\n\n" + src
